@@ -575,10 +575,11 @@ class UnitDatabase(Singleton):
             caption=caption,
         )
 
-        if category in self.categories_to_quantity_types:
-            # Replacing a category: quantities already interned for it embed the previous
-            # category info (quantity type, limits, conversion), so they can't be handed out again.
-            self.quantities_cache.clear()
+        # Quantities already interned may not be handed out again: when a category is replaced they
+        # embed the previous category info (quantity type, limits, conversion), and a request that
+        # named only a unit was resolved without this category (it may be the unit's default
+        # category now).
+        self.quantities_cache.clear()
         # Verdicts memoized before this registration (including negative ones) may now be wrong.
         self._category_unit_valid.clear()
 
